@@ -22,8 +22,10 @@ theorem tldBitEnum_eq : Gen.tldBitEnum =
 
 theorem rfcEnum_eq : Gen.rfcEnum = [("EAV_RFC_822", 0), ("EAV_RFC_5321", 1), ("EAV_RFC_5322", 2), ("EAV_RFC_6531", 3)] := by decide
 
-theorem limits_eq : Gen.limits = [("DOMAIN_SIZE", Lim.DOMAIN_SIZE), ("LABEL_SIZE", Lim.LABEL_SIZE),
-    ("VALID_HOSTNAME_LEN", Lim.VALID_HOSTNAME_LEN), ("VALID_LABEL_LEN", Lim.VALID_LABEL_LEN),
-    ("VALID_LPART_LEN", Lim.VALID_LPART_LEN)] := by decide
+/-- every limit the tree defines has the value the model assumes, and the four public ones are all there
+(`LABEL_SIZE` exists only while `is_special_domain` copies labels into a buffer) -/
+theorem limits_eq : Gen.limits.all (fun kv => [("DOMAIN_SIZE", Lim.DOMAIN_SIZE), ("LABEL_SIZE", Lim.LABEL_SIZE),
+      ("VALID_HOSTNAME_LEN", Lim.VALID_HOSTNAME_LEN), ("VALID_LABEL_LEN", Lim.VALID_LABEL_LEN), ("VALID_LPART_LEN", Lim.VALID_LPART_LEN)].contains kv) = true ∧
+    ["DOMAIN_SIZE", "VALID_HOSTNAME_LEN", "VALID_LABEL_LEN", "VALID_LPART_LEN"].all (fun k => (Gen.limits.map (·.1)).contains k) = true := by decide
 
 end Eav.Props.GenTie
